@@ -281,7 +281,11 @@ class SegmentTensor(PolytopeTensor):
             return other.intersect(self)
 
         if isinstance(other, SegmentTensor):
-            result = meet(self._line, other._line, _check_dependence=False)
+            try:
+                result = meet(self._line, other._line, _check_dependence=False)
+            except NotCoplanar:
+                # skew supporting lines have no common point
+                return []
             ind = ~result.is_zero() & self.contains(result) & other.contains(result)
         else:
             result = meet(self._line, other, _check_dependence=False)
